@@ -613,6 +613,39 @@ Proof.
   destruct (sequence (map render es)); simpl; [|reflexivity]. now rewrite app_assoc.
 Qed.
 
+(* with both abstract options off, writedir_abs is writedir *)
+Lemma writedir_abs_loop_off render es : forall out,
+  writedir_abs_loop render false out es = writedir_loop render out es.
+Proof.
+  induction es as [|e r IH]; intros out; simpl; [reflexivity|].
+  destruct (render e); [apply IH | reflexivity].
+Qed.
+
+Lemma writedir_abs_off pre post render listed es :
+  writedir_abs false false pre post render listed es = writedir pre post render es.
+Proof.
+  unfold writedir_abs, writedir. now rewrite app_nil_r, writedir_abs_loop_off.
+Qed.
+
+(* with them on: header lines of the listed object's abstract, then every entry followed by its own abstract lines *)
+Definition entry_with_abstract (render : entry -> option str) (e : entry) : option str :=
+  match render e, renderabstract render (dict_get ABSTRACT_KEY (e_ea e)) with
+  | Some s, Some a => Some (s ++ a)
+  | _, _ => None
+  end.
+
+Lemma writedir_abs_loop_on render es : forall out,
+  writedir_abs_loop render true out es =
+  option_map (fun items => out ++ concat items) (sequence (map (entry_with_abstract render) es)).
+Proof.
+  induction es as [|e r IH]; intros out; simpl.
+  - now rewrite app_nil_r.
+  - unfold entry_with_abstract at 1. destruct (render e) as [s|]; [|reflexivity].
+    destruct (renderabstract render (dict_get ABSTRACT_KEY (e_ea e))) as [a|]; [|reflexivity].
+    rewrite IH. destruct (sequence (map (entry_with_abstract render) r)); simpl; [|reflexivity].
+    now rewrite !app_assoc.
+Qed.
+
 Lemma all_protocols fs_exists populate base lines es :
   gophermap_entries fs_exists populate base lines = Ok es ->
   forall (render : entry -> option str) (pre post : str),
